@@ -124,18 +124,19 @@ Qed.
 Definition lstep (S : sys) (p : nat) (c : list (coord * Z)) (l : list (coord * nat)) (f : list coord) (pr : proc)
   : list (coord * Z) * list (coord * nat) * list coord * proc * obs :=
   match p_pc pr with
-  | Load [] => (c, l, f, with_pc pr (Check (filter (fun t => negb (has_src (p_src pr) t)) (p_req pr))), OSilent)
+  | Load [] => (c, l, f, with_pc pr (Check (filter (fun t => o_expire S || negb (has_src (p_src pr) t)) (p_req pr))), OSilent)
   | Load (t :: todo) =>
-    match lookup c t with
+    match file S c t with
     | Some v => (c, l, f, with_src pr (Load todo) ((t, Some v) :: p_src pr), ORead t true)
     | None => (c, l, f, with_pc pr (Load todo), ORead t false)
     end
   | Check [] => (c, l, f, with_pc pr (next_unit (units S (p_unc pr))), OSilent)
   | Check (t :: todo) =>
     if cached c t
-    then (c, l, f, with_pc pr (if o_reload S then Reload t todo else Check todo), ORead t true)
+    then (c, l, f, with_pc pr (if has_src (p_src pr) t then Check todo
+                               else if o_reload S then Reload t todo else Check todo), ORead t true)
     else (c, l, f, mk_proc (Check todo) (p_req pr) (p_src pr) (p_unc pr ++ [t]), ORead t false)
-  | Reload t todo => (c, l, f, with_src pr (Check todo) ((t, lookup c t) :: p_src pr), ORead t (cached c t))
+  | Reload t todo => (c, l, f, with_src pr (Check todo) ((t, file S c t) :: p_src pr), ORead t (is_some (file S c t)))
   | Lock m rest =>
     match lookup l (o_key S m) with
     | Some _ => (c, l, f, pr, OLock (o_key S m) false)
@@ -154,13 +155,14 @@ Definition lstep (S : sys) (p : nat) (c : list (coord * Z)) (l : list (coord * n
   | Store m [] rest => (c, l, f, with_pc pr (Unlock m false rest), OSilent)
   | Store m (t :: todo) rest => ((t, o_up S t) :: c, l, f, with_pc pr (Store m todo rest), OWrite t (o_up S t))
   | LoadUnder m rest =>
-    (c, l, f, with_src pr (Unlock m false rest) ((m, lookup c m) :: p_src pr), ORead m (cached c m))
+    if has_src (p_src pr) m then (c, l, f, with_pc pr (Unlock m false rest), OSilent)
+    else (c, l, f, with_src pr (Unlock m false rest) ((m, file S c m) :: p_src pr), ORead m (is_some (file S c m)))
   | Unlock m after rest =>
     (c, remove_key l (o_key S m), f,
      with_pc pr (if after then LoadAfter m (o_members S m) rest else next_unit rest), OUnlock (o_key S m))
   | LoadAfter m [] rest => (c, l, f, with_pc pr (next_unit rest), OSilent)
   | LoadAfter m (t :: todo) rest =>
-    (c, l, f, with_src pr (LoadAfter m todo rest) ((t, lookup c t) :: p_src pr), ORead t (cached c t))
+    (c, l, f, with_src pr (LoadAfter m todo rest) ((t, file S c t) :: p_src pr), ORead t (is_some (file S c t)))
   | Done => (c, l, f, pr, OSkip)
   end.
 
@@ -174,10 +176,11 @@ Proof.
   unfold set_proc. cbn [cache locks fetched procs].
   destruct (p_pc pr) as [todo|todo|t todo|m rest|m todo rest|m rest|m todo rest|m rest|m a rest|m todo rest|];
     try destruct todo as [|t' todo]; try reflexivity.
-  - destruct (lookup c t'); reflexivity.
+  - destruct (file S c t'); reflexivity.
   - destruct (cached c t'); reflexivity.
   - destruct (lookup l (o_key S m)); [|reflexivity]. rewrite (set_nth_same _ _ _ H). reflexivity.
   - destruct (cached c t'); reflexivity.
+  - destruct (has_src (p_src pr) m); reflexivity.
   - rewrite (set_nth_same _ _ _ H). reflexivity.
 Qed.
 
@@ -225,14 +228,15 @@ Section Proto.
       try destruct todo as [|t' todo].
     all: try (intros H; injection H as <- <- <- <- <-; left; split; [reflexivity|]; cbn [p_pc with_pc with_src];
               rewrite ?holds_next_unit; try reflexivity).
-    - destruct (lookup c t'); intros H; injection H as <- <- <- <- <-; left; split; reflexivity.
+    - destruct (file S c t'); intros H; injection H as <- <- <- <- <-; left; split; reflexivity.
     - destruct (cached c t'); intros H; injection H as <- <- <- <- <-; left; split; try reflexivity.
-      cbn [p_pc with_pc]. destruct (o_reload S); reflexivity.
+      cbn [p_pc with_pc]. destruct (has_src (p_src pr) t'); [reflexivity|]. destruct (o_reload S); reflexivity.
     - destruct (lookup l (o_key S m)) eqn:E; intros H; injection H as <- <- <- <- <-.
       + left. split; [reflexivity | rewrite Hpc; reflexivity].
       + right. left. exists m. repeat split; try assumption. cbn [p_pc with_pc]. destruct (o_recheck S); reflexivity.
     - destruct (o_single S); reflexivity.
     - destruct (cached c t'); intros H; injection H as <- <- <- <- <-; left; split; reflexivity.
+    - destruct (has_src (p_src pr) m); intros H; injection H as <- <- <- <- <-; left; split; reflexivity.
     - intros H; injection H as <- <- <- <- <-. right. right. exists m. repeat split.
       cbn [p_pc with_pc]. destruct a; [reflexivity | apply holds_next_unit].
     - rewrite Hpc. reflexivity.
@@ -354,12 +358,13 @@ Section Proto.
     destruct (p_pc pr) as [todo|todo|t rtodo|m rest|m todo rest|m rest|m todo rest|m rest|m a rest|m todo rest|] eqn:Hpc;
       try destruct todo as [|t' todo].
     - (* Load [] *) cbn [fst]. eapply fetch_inv_frame; eauto; try (rewrite Hpc; reflexivity); cbn; try reflexivity. discriminate.
-    - (* Load *) destruct (lookup (cache s) t'); cbn [fst];
+    - (* Load *) destruct (file S (cache s) t'); cbn [fst];
         (eapply fetch_inv_frame; eauto; try (rewrite Hpc; reflexivity); cbn; try reflexivity; discriminate).
     - (* Check [] *) cbn [fst]. eapply fetch_inv_frame; eauto; try (rewrite Hpc; reflexivity); cbn [p_pc with_pc].
       + apply next_unit_store. + apply next_unit_fetch. + intros ? ? ? H. exfalso. eapply next_unit_recheck; exact H.
     - (* Check *) destruct (cached (cache s) t'); cbn [fst].
-      + eapply fetch_inv_frame; eauto; try (rewrite Hpc; reflexivity); cbn [p_pc with_pc]; destruct (o_reload S); try reflexivity; discriminate.
+      + eapply fetch_inv_frame; eauto; try (rewrite Hpc; reflexivity); cbn [p_pc with_pc];
+          destruct (has_src (p_src pr) t'); try destruct (o_reload S); try reflexivity; discriminate.
       + eapply fetch_inv_frame; eauto; try (rewrite Hpc; reflexivity); cbn; try reflexivity; discriminate.
     - (* Reload *) cbn [fst]. eapply fetch_inv_frame; eauto; try (rewrite Hpc; reflexivity); cbn; try reflexivity. discriminate.
     - (* Lock *) destruct (lookup (locks s) (o_key S m)); cbn [fst].
@@ -436,7 +441,8 @@ Section Proto.
       + intros q prq m' todo' rest' Hq Hpcq. rewrite Hnth in Hq. destruct (Nat.eqb_spec q p) as [->|Hn].
         * injection Hq as <-. discriminate.
         * eapply (fi_recheck _ HF); eassumption.
-    - (* LoadUnder *) cbn [fst]. eapply fetch_inv_frame; eauto; try (rewrite Hpc; reflexivity); cbn; try reflexivity. discriminate.
+    - (* LoadUnder *) destruct (has_src (p_src pr) m); cbn [fst];
+        (eapply fetch_inv_frame; eauto; try (rewrite Hpc; reflexivity); cbn; try reflexivity; discriminate).
     - (* Unlock *) cbn [fst]. eapply fetch_inv_frame; eauto; try (rewrite Hpc; reflexivity); cbn [p_pc with_pc]; destruct a;
         try reflexivity; try discriminate; try apply next_unit_store; try apply next_unit_fetch.
       intros ? ? ? H. exfalso. eapply next_unit_recheck; exact H.
@@ -470,9 +476,15 @@ Section Proto.
   Variable valid : coord -> Prop.
   Hypothesis HA : forall r, valid r -> In r (o_members S (o_main S r)).
   Hypothesis HS : o_single S = true -> forall r, valid r -> o_main S r = r.
+  (* without an expire timestamp no file counts as expired *)
+  Hypothesis Hold : o_expire S = false -> forall t, o_old S t = None.
 
   Definition cache_ok (c : list (coord * Z)) : Prop := forall t v, lookup c t = Some v -> v = o_up S t.
-  Definition src_ok (src : list (coord * option Z)) : Prop := forall t v, lookup src t = Some (Some v) -> v = o_up S t.
+  Definition src_ok (src : list (coord * option Z)) : Prop :=
+    forall t v, lookup src t = Some (Some v) -> v = o_up S t \/ o_old S t = Some v.
+
+  Lemma file_cached c t : cached c t = true -> file S c t = lookup c t.
+  Proof. unfold cached, file. destruct (lookup c t); [reflexivity | discriminate]. Qed.
 
   (* tile r is settled for this requester: it is in the cache and (repaired protocol) the requester has its image *)
   Definition G (c : list (coord * Z)) (src : list (coord * option Z)) (r : coord) : Prop :=
@@ -487,7 +499,7 @@ Section Proto.
   Definition PIpc (c : list (coord * Z)) (f : list coord) (k : pc) (req : list coord) (src : list (coord * option Z))
              (unc : list coord) : Prop :=
     match k with
-    | Load todo => forall r, In r req -> has_src src r = true -> cached c r = true
+    | Load todo => forall r, In r req -> has_src src r = true -> cached c r = true \/ o_expire S = true
     | Check todo => incl todo req /\ forall r, In r req -> G c src r \/ In r todo \/ In r unc
     | Reload t todo => In t req /\ incl todo req /\ cached c t = true /\
                        forall r, In r req -> G c src r \/ r = t \/ In r todo \/ In r unc
@@ -524,7 +536,7 @@ Section Proto.
     intros Hm Hf [H1 [H2 [H3 H4]]]. split; [exact H1|]. split; [exact H2|]. split; [exact H3|].
     unfold PIpc, todo_units, allc in *.
     destruct (p_pc pr) as [todo|todo|t rtodo|m rest|m todo rest|m rest|m todo rest|m rest|m a rest|m todo rest|].
-    - intros r Hr Hs. auto.
+    - intros r Hr Hs. destruct (H4 r Hr Hs); auto.
     - destruct H4 as [Hi H4]. split; [exact Hi|]. intros r Hr. destruct (H4 r Hr) as [H|H]; [left; eapply G_mono; eauto | right; exact H].
     - destruct H4 as [Ht [Hi [Hc H4]]]. repeat split; auto. intros r Hr.
       destruct (H4 r Hr) as [H|H]; [left; eapply G_mono; eauto | right; exact H].
@@ -584,7 +596,7 @@ Section Proto.
   Lemma src_ok_cons_cached c src t : cache_ok c -> src_ok src -> src_ok ((t, lookup c t) :: src).
   Proof.
     intros Hc Hs u v. cbn [lookup]. destruct (coord_eqb_spec t u) as [->|Hn]; [|exact (Hs u v)].
-    intros H. injection H as H. apply Hc. exact H.
+    intros H. injection H as H. left. apply Hc. exact H.
   Qed.
 
   Lemma units_ok_units unc : units_ok unc (units S unc).
@@ -617,6 +629,15 @@ Section Proto.
   Lemma G_cons_neq c src t x r : t <> r -> G c src r -> G c ((t, x) :: src) r.
   Proof. intros Hn [H1 H2]. split; [exact H1|]. intros Hr. rewrite has_src_cons_neq by exact Hn. auto. Qed.
 
+  (* is some requested tile in unit m? (decidable: finite list, decidable equality) *)
+  Lemma classic_main req m : (exists r, In r req /\ o_main S r = m) \/ (forall r, In r req -> o_main S r <> m).
+  Proof.
+    induction req as [|x req IH]; [right; intros r []|].
+    destruct (coord_eq_dec (o_main S x) m) as [He|Hne]; [left; exists x; split; [left; reflexivity | exact He]|].
+    destruct IH as [[r [Hr Hm]]|Hn]; [left; exists r; split; [right; exact Hr | exact Hm]|].
+    right. intros r [<-|Hr]; auto.
+  Qed.
+
   Ltac keep3 := split; [try assumption | split; [try assumption | split; [try assumption|]]].
 
   Lemma PI_step p c l f pr c' l' f' pr' o :
@@ -629,20 +650,26 @@ Section Proto.
       try destruct todo as [|t' todo]; cbn [PIpc] in Hpc.
     - (* Load [] *) injection E as <- <- <- <- <-. cbn [p_pc p_req p_src p_unc with_pc with_src]. keep3. cbn [PIpc]. split.
       + intros x Hx. apply filter_In in Hx. tauto.
-      + intros r Hr. destruct (has_src src r) eqn:Eh.
-        * left. split; auto.
+      + intros r Hr. destruct (o_expire S) eqn:Ee; [right; left; apply filter_In; auto|].
+        destruct (has_src src r) eqn:Eh.
+        * left. destruct (Hpc r Hr Eh) as [H|H]; [split; auto | discriminate].
         * right. left. apply filter_In. rewrite Eh. auto.
-    - (* Load *) destruct (lookup c t') as [v|] eqn:El; injection E as <- <- <- <- <-; cbn [p_pc p_req p_src p_unc with_pc with_src]; keep3; cbn [PIpc].
+    - (* Load *) destruct (file S c t') as [v|] eqn:El; injection E as <- <- <- <- <-; cbn [p_pc p_req p_src p_unc with_pc with_src]; keep3; cbn [PIpc].
       + intros u w. cbn [lookup]. destruct (coord_eqb_spec t' u) as [->|Hn]; [|exact (Hsrc u w)].
-        intros H. injection H as <-. apply Hok. exact El.
-      + intros r Hr Hs. destruct (coord_eq_dec t' r) as [<-|Hn]; [eapply lookup_cached; exact El|].
-        rewrite has_src_cons_neq in Hs by exact Hn. auto.
+        intros H. injection H as <-. unfold file in El. destruct (lookup c u) as [v'|] eqn:El2; [|right; exact El].
+        injection El as <-. left. apply Hok. exact El2.
+      + intros r Hr Hs. destruct (coord_eq_dec t' r) as [<-|Hn].
+        * unfold file in El. destruct (lookup c t') as [v'|] eqn:El2; [left; eapply lookup_cached; exact El2|].
+          destruct (o_expire S) eqn:Ee; [right; reflexivity|]. rewrite (Hold eq_refl) in El. discriminate.
+        * rewrite has_src_cons_neq in Hs by exact Hn. auto.
       + intros r Hr Hs. auto.
     - (* Check [] *) injection E as <- <- <- <- <-. cbn [p_pc p_req p_src p_unc with_pc with_src]. keep3.
       destruct Hpc as [_ Hpc]. apply PIpc_next_unit; [apply units_ok_units|].
       intros r Hr. destruct (Hpc r Hr) as [H|[[]|H]]; [left; exact H | right; apply units_cover; exact H].
     - (* Check *) destruct Hpc as [Hincl Hpc]. destruct (cached c t') eqn:Ec; injection E as <- <- <- <- <-; cbn [p_pc p_req p_src p_unc with_pc with_src]; keep3.
-      + destruct (o_reload S) eqn:Er; cbn [PIpc].
+      + destruct (has_src src t') eqn:Ehs; [cbn [PIpc]; split; [intros x Hx; apply Hincl; right; exact Hx|];
+          intros r Hr; destruct (Hpc r Hr) as [H|[[<-|H]|H]]; auto; left; split; auto|].
+        destruct (o_reload S) eqn:Er; cbn [PIpc].
         * split; [apply Hincl; left; reflexivity|]. split; [intros x Hx; apply Hincl; right; exact Hx|]. split; [exact Ec|].
           intros r Hr. destruct (Hpc r Hr) as [H|[[<-|H]|H]]; auto.
         * split; [intros x Hx; apply Hincl; right; exact Hx|].
@@ -654,7 +681,7 @@ Section Proto.
         intros r' Hr. destruct (Hpc r' Hr) as [H|[[<-|H]|H]]; auto.
         * right. right. apply in_or_app. right. left. reflexivity.
         * right. right. apply in_or_app. left. exact H.
-    - (* Reload *) destruct Hpc as [Ht [Hincl [Hc Hpc]]]. injection E as <- <- <- <- <-. cbn [p_pc p_req p_src p_unc with_pc with_src]. keep3.
+    - (* Reload *) destruct Hpc as [Ht [Hincl [Hc Hpc]]]. rewrite (file_cached _ _ Hc) in E. injection E as <- <- <- <- <-. cbn [p_pc p_req p_src p_unc with_pc with_src]. keep3.
       + apply src_ok_cons_cached; assumption.
       + cbn [PIpc]. split; [exact Hincl|].
         intros r Hr. destruct (Hpc r Hr) as [H|[->|[H|H]]]; auto.
@@ -673,7 +700,7 @@ Section Proto.
       intros u Hm Hn. destruct (coord_eq_dec t' u) as [<-|Hne]; [exact Ec|]. apply Hc; [exact Hm|]. intros [H|H]; contradiction.
     - (* Fetch *) destruct Hpc as [Hu Hpc]. injection E as <- <- <- <- <-. cbn [p_pc p_req p_src p_unc with_pc with_src]. keep3.
       + intros u w. rewrite (lookup_app_map (fun x => Some (o_up S x))). destruct (mem u (o_members S m)); [|exact (Hsrc u w)].
-        intros H. injection H as <-. reflexivity.
+        intros H. injection H as <-. left. reflexivity.
       + cbn [PIpc]. split; [exact Hu|]. split; [apply incl_refl|]. split; [left; reflexivity|].
         intros r Hr. destruct (Hpc r Hr) as [[H1 H2]|[H|H]]; auto.
         * left. split; [exact H1|]. intros Hrl. rewrite has_src_app_map, (H2 Hrl). apply orb_true_r.
@@ -686,7 +713,25 @@ Section Proto.
       intros r Hr. destruct (Hpc r Hr) as [H|[[Hs [<-|Hin]]|H]]; auto.
       + left. eapply G_mono; [|exact H]. intros u. apply cached_cons.
       + left. split; [apply cached_cons_eq | intros _; exact Hs].
-    - (* LoadUnder *) destruct Hpc as [Hsg [Hu [Hc Hpc]]]. injection E as <- <- <- <- <-. cbn [p_pc p_req p_src p_unc with_pc with_src]. keep3.
+    - (* LoadUnder *) destruct Hpc as [Hsg [Hu [Hc Hpc]]].
+      assert (Hcm : forall r, In r req -> o_main S r = m -> r = m /\ cached c m = true).
+      { intros r Hr H. assert (r = m) by (rewrite <- H; symmetry; apply HS; auto). subst r. split; [reflexivity|].
+        apply Hc. pose proof (HA m (Hval m Hr)) as HA'. rewrite H in HA'. exact HA'. }
+      destruct (has_src src m) eqn:Ehs.
+      { injection E as <- <- <- <- <-. cbn [p_pc p_req p_src p_unc with_pc with_src]. keep3. cbn [PIpc]. split; [exact Hu|].
+        intros r Hr. destruct (Hpc r Hr) as [H|[H|H]]; auto. left. destruct (Hcm r Hr H) as [-> Hcc]. split; auto. }
+      assert (Hfile : forall r, In r req -> o_main S r = m -> file S c m = lookup c m).
+      { intros r Hr H. apply file_cached. apply (Hcm r Hr H). }
+      destruct (classic_main req m) as [[r0 [Hr0 Hm0]]|Hnone].
+      2:{ injection E as <- <- <- <- <-. cbn [p_pc p_req p_src p_unc with_pc with_src]. keep3.
+          - intros u w. cbn [lookup]. destruct (coord_eqb_spec m u) as [->|Hn]; [|exact (Hsrc u w)].
+            intros H. injection H as H. unfold file in H. destruct (lookup c u) as [v'|] eqn:El2; [|right; exact H].
+            injection H as <-. left. apply Hok. exact El2.
+          - cbn [PIpc]. split; [exact Hu|]. intros r Hr. destruct (Hpc r Hr) as [H|[H|H]]; auto.
+            + left. destruct (coord_eq_dec m r) as [->|Hn]; [exfalso; apply (Hnone r Hr); apply HS; auto | apply G_cons_neq; assumption].
+            + exfalso. apply (Hnone r Hr H). }
+      rewrite (Hfile r0 Hr0 Hm0) in E.
+      injection E as <- <- <- <- <-. cbn [p_pc p_req p_src p_unc with_pc with_src]. keep3.
       + apply src_ok_cons_cached; assumption.
       + cbn [PIpc]. split; [exact Hu|].
         intros r Hr. destruct (Hpc r Hr) as [H|[H|H]]; auto.
@@ -702,8 +747,10 @@ Section Proto.
     - (* LoadAfter [] *) destruct Hpc as [Hu [Hc Hpc]]. injection E as <- <- <- <- <-. cbn [p_pc p_req p_src p_unc with_pc with_src]. keep3.
       apply PIpc_next_unit; [eapply units_ok_tail; exact Hu|].
       intros r Hr. destruct (Hpc r Hr) as [H|[[_ []]|H]]; auto.
-    - (* LoadAfter *) destruct Hpc as [Hu [Hc Hpc]]. injection E as <- <- <- <- <-. cbn [p_pc p_req p_src p_unc with_pc with_src].
+    - (* LoadAfter *) destruct Hpc as [Hu [Hc Hpc]].
       assert (Hct : cached c t' = true) by (apply Hc; left; reflexivity).
+      rewrite (file_cached _ _ Hct) in E.
+      injection E as <- <- <- <- <-. cbn [p_pc p_req p_src p_unc with_pc with_src].
       keep3.
       + apply src_ok_cons_cached; assumption.
       + cbn [PIpc]. split; [exact Hu|]. split; [intros u Hin; apply Hc; right; exact Hin|].
@@ -727,7 +774,7 @@ Section Proto.
     destruct (p_pc pr) as [todo|todo|t rtodo|m rest|m todo rest|m rest|m todo rest|m rest|m a rest|m todo rest|] eqn:Hpc;
       try destruct todo as [|t' todo].
     all: try (intros H; injection H as <- <- <- <- <-; fin_same).
-    - destruct (lookup c t'); intros H; injection H as <- <- <- <- <-; fin_same.
+    - destruct (file S c t'); intros H; injection H as <- <- <- <- <-; fin_same.
     - destruct (cached c t'); intros H; injection H as <- <- <- <- <-; fin_same.
     - destruct (lookup l (o_key S m)); intros H; injection H as <- <- <- <- <-; fin_same.
     - destruct (cached c t'); intros H; injection H as <- <- <- <- <-; fin_same.
@@ -735,6 +782,7 @@ Section Proto.
       right. exists m, rest. split; reflexivity.
     - intros H; injection H as <- <- <- <- <-; cbn [p_req with_pc with_src]; split; [reflexivity|]; split; [|left; reflexivity].
       right. exists t', m, todo, rest. split; reflexivity.
+    - destruct (has_src (p_src pr) m); intros H; injection H as <- <- <- <- <-; fin_same.
   Qed.
 
   Lemma map_set_nth {A B} (g : A -> B) (l : list A) n x y :
@@ -786,14 +834,14 @@ Section Proto.
           exists m. split; [apply Hfm; exact Hm | apply Hi; left; reflexivity].
         * unfold cached in Hu. rewrite lookup_cons_neq in Hu by exact Hn.
           destruct (g_dom _ _ HG u Hu) as [H|[m' [Hm Hin]]]; [left; exact H | right; exists m'; split; [apply Hfm; exact Hm | exact Hin]].
-    - assert (Hold : forall m, In m (fetched s) -> exists p0 pr0 r, nth_error (set_nth (procs s) p pr') p0 = Some pr0 /\
+    - assert (Hprev : forall m, In m (fetched s) -> exists p0 pr0 r, nth_error (set_nth (procs s) p pr') p0 = Some pr0 /\
                        In r (p_req pr0) /\ cached c0 r = false /\ m = o_main S r).
       { intros m Hm. destruct (g_why _ _ HG m Hm) as [q [prq [r [Hq [Hr [H0 Hmr]]]]]].
         destruct (Nat.eq_dec q p) as [->|Hn].
         - exists p, pr', r. rewrite Hnth, Nat.eqb_refl. rewrite Hp in Hq. injection Hq as <-. rewrite Hreq. auto.
         - exists q, prq, r. rewrite Hnth. destruct (Nat.eqb_spec q p); [contradiction | auto]. }
-      destruct Hf as [->|[m [rest [Hpc ->]]]]; [exact Hold|].
-      intros m' [<-|Hm']; [|apply Hold; exact Hm'].
+      destruct Hf as [->|[m [rest [Hpc ->]]]]; [exact Hprev|].
+      intros m' [<-|Hm']; [|apply Hprev; exact Hm'].
       rewrite Hpc in Hpipc. cbn [PIpc] in Hpipc. destruct Hpipc as [Hu _].
       destruct (Hu m (or_introl eq_refl)) as [r [Hr Hmr]]. destruct (Hunc r Hr) as [Hrr H0].
       exists p, pr', r. rewrite Hnth, Nat.eqb_refl, Hreq. auto.
@@ -827,7 +875,8 @@ Section Proto.
   (* ---------------------------------------------------------------- responses *)
 
   Lemma response_entries_correct reqs s p pr r v :
-    GInv reqs s -> nth_error (procs s) p = Some pr -> In (r, Some v) (response pr) -> v = o_up S r.
+    GInv reqs s -> nth_error (procs s) p = Some pr -> In (r, Some v) (response pr) ->
+    v = o_up S r \/ o_old S r = Some v.
   Proof.
     intros HG Hp Hin. destruct (g_pi _ _ HG _ _ Hp) as [Hsrc _]. unfold response in Hin.
     apply in_map_iff in Hin. destruct Hin as [t [Heq _]]. injection Heq as -> Hs.
@@ -835,14 +884,25 @@ Section Proto.
     injection Hs as ->. apply Hsrc. exact E.
   Qed.
 
+  (* every requested tile is answered with an image: the upstream's or (expiry) the expired file's *)
+  Lemma response_answered reqs s p pr :
+    o_reload S = true -> GInv reqs s -> nth_error (procs s) p = Some pr -> p_pc pr = Done ->
+    forall r, In r (p_req pr) -> exists v, src_of (p_src pr) r = Some v /\ (v = o_up S r \/ o_old S r = Some v).
+  Proof.
+    intros Hrl HG Hp Hd r Hr. destruct (g_pi _ _ HG _ _ Hp) as [Hsrc [_ [_ Hpc]]]. rewrite Hd in Hpc. cbn [PIpc] in Hpc.
+    destruct (Hpc r Hr) as [_ Hh]. specialize (Hh Hrl).
+    unfold has_src, src_of in *. destruct (lookup (p_src pr) r) as [[w|]|] eqn:E; try discriminate.
+    exists w. split; [reflexivity | apply Hsrc; exact E].
+  Qed.
+
   Lemma response_complete reqs s p pr :
+    o_expire S = false ->
     o_reload S = true -> GInv reqs s -> nth_error (procs s) p = Some pr -> p_pc pr = Done ->
     response pr = map (fun r => (r, Some (o_up S r))) (p_req pr).
   Proof.
-    intros Hrl HG Hp Hd. destruct (g_pi _ _ HG _ _ Hp) as [Hsrc [_ [_ Hpc]]]. rewrite Hd in Hpc. cbn [PIpc] in Hpc.
-    unfold response. apply map_ext_in. intros r Hr. destruct (Hpc r Hr) as [_ Hh]. specialize (Hh Hrl).
-    unfold has_src, src_of in *. destruct (lookup (p_src pr) r) as [[w|]|] eqn:E; try discriminate.
-    rewrite (Hsrc _ _ E). reflexivity.
+    intros He Hrl HG Hp Hd. unfold response. apply map_ext_in. intros r Hr.
+    destruct (response_answered _ _ _ _ Hrl HG Hp Hd r Hr) as [v [-> [->|Ho]]]; [reflexivity|].
+    rewrite (Hold He) in Ho. discriminate.
   Qed.
 
   Lemma done_tiles_cached reqs s p pr r :
@@ -897,12 +957,13 @@ Section Proto.
     rewrite (step_lstep _ _ _ _ Hp) in Ho. unfold lstep in Ho.
     destruct (p_pc pr) as [todo|todo|t rtodo|m rest|m todo rest|m rest|m todo rest|m rest|m a rest|m todo rest|] eqn:Hpc;
       try destruct todo as [|t' todo]; cbn [snd] in Ho; try discriminate.
-    - destruct (lookup (cache s) t'); discriminate.
+    - destruct (file S (cache s) t'); discriminate.
     - destruct (cached (cache s) t'); discriminate.
     - destruct (lookup (locks s) (o_key S m)) as [q|] eqn:El; cbn [snd] in Ho; [|discriminate].
       injection Ho as <-. destruct (H2 _ _ El) as [prq [mq [Hq [Hm Hk]]]]. exists q, prq, mq. repeat split; auto.
       intros ->. rewrite Hp in Hq. injection Hq as <-. rewrite Hpc in Hm. discriminate.
     - destruct (cached (cache s) t'); discriminate.
+    - destruct (has_src (p_src pr) m); discriminate.
   Qed.
 End Proto.
 
@@ -1074,24 +1135,27 @@ Definition content_ok (up : coord -> Z) (c0 : list (coord * Z)) : Prop :=
 Definition needed_tile (g : gconf) (c0 : list (coord * Z)) (reqs : list (list coord)) (t : coord) : Prop :=
   exists req r, In req reqs /\ In r req /\ cached c0 r = false /\ In t (g_members g (g_main g r)).
 
-Lemma grid_reach g reload up c0 reqs sched :
-  valid_gconf g -> valid_reqs g reqs -> content_ok up c0 ->
-  Reach (grid_sys g true reload up) c0 (fun r => in_grid g r = true) reqs
-        (run (grid_sys g true reload up) (init c0 reqs) sched).
+(* without an expire timestamp no file counts as expired *)
+Definition old_ok (expire : bool) (old : coord -> option Z) : Prop := expire = false -> forall t, old t = None.
+
+Lemma grid_reach g reload up expire old c0 reqs sched :
+  valid_gconf g -> valid_reqs g reqs -> content_ok up c0 -> old_ok expire old ->
+  Reach (grid_sys_x g true reload up expire old) c0 (fun r => in_grid g r = true) reqs
+        (run (grid_sys_x g true reload up expire old) (init c0 reqs) sched).
 Proof.
-  intros Hg Hr Hc. apply reach_run; cbn [grid_sys o_recheck o_members o_main o_single o_up]; auto.
+  intros Hg Hr Hc Ho. apply reach_run; cbn [grid_sys_x o_recheck o_members o_main o_single o_up o_expire o_old]; auto.
   - intros r Hv. apply grid_member_self; assumption.
   - intros Hs r _. unfold g_main. destruct (g_meta g); [discriminate | reflexivity].
 Qed.
 
-Lemma grid_one_fetch g reload up c0 reqs sched :
-  valid_gconf g -> valid_reqs g reqs -> content_ok up c0 ->
-  let s := run (grid_sys g true reload up) (init c0 reqs) sched in
+Lemma grid_one_fetch g reload up expire old c0 reqs sched :
+  valid_gconf g -> valid_reqs g reqs -> content_ok up c0 -> old_ok expire old ->
+  let s := run (grid_sys_x g true reload up expire old) (init c0 reqs) sched in
   NoDup (fetched s) /\
   forall m, In m (fetched s) -> exists req r, In req reqs /\ In r req /\ cached c0 r = false /\ m = g_main g r.
 Proof.
-  intros Hg Hr Hc s. split; [apply one_fetch_per_unit; reflexivity|].
-  destruct (grid_reach g reload up c0 reqs sched Hg Hr Hc) as [_ [_ HG]]. fold s in HG.
+  intros Hg Hr Hc Ho s. split; [apply one_fetch_per_unit; reflexivity|].
+  destruct (grid_reach g reload up expire old c0 reqs sched Hg Hr Hc Ho) as [_ [_ HG]]. fold s in HG.
   intros m Hm. destruct (g_why _ _ _ _ _ HG m Hm) as [p [pr [r [Hp [Hin [H0 Hmr]]]]]].
   exists (p_req pr), r. repeat split; auto. rewrite <- (g_req _ _ _ _ _ HG). apply in_map. eapply nth_error_In. exact Hp.
 Qed.
@@ -1100,60 +1164,71 @@ Lemma nth_error_req {S c0 valid reqs s} p pr :
   GInv S c0 valid reqs s -> nth_error (procs s) p = Some pr -> nth_error reqs p = Some (p_req pr).
 Proof. intros HG Hp. rewrite <- (g_req _ _ _ _ _ HG). apply map_nth_error. exact Hp. Qed.
 
+(* no expire timestamp: the image of the upstream for every requested tile *)
 Lemma grid_responses_correct g up c0 reqs sched p pr :
   valid_gconf g -> valid_reqs g reqs -> content_ok up c0 ->
   let s := run (grid_sys g true true up) (init c0 reqs) sched in
   nth_error (procs s) p = Some pr -> p_pc pr = Done ->
   exists req, nth_error reqs p = Some req /\ response pr = map (fun r => (r, Some (up r))) req.
 Proof.
-  intros Hg Hr Hc s Hp Hd. destruct (grid_reach g true up c0 reqs sched Hg Hr Hc) as [_ [_ HG]]. fold s in HG.
+  intros Hg Hr Hc s Hp Hd.
+  assert (Ho : old_ok false (fun _ : coord => @None Z)) by (intros _ t; reflexivity).
+  destruct (grid_reach g true up false (fun _ => None) c0 reqs sched Hg Hr Hc Ho) as [_ [_ HG]].
+  change (grid_sys_x g true true up false (fun _ => None)) with (grid_sys g true true up) in HG. fold s in HG.
   exists (p_req pr). split; [eapply nth_error_req; eassumption|].
-  apply (response_complete (grid_sys g true true up) _ _ _ _ _ _ (eq_refl true) HG Hp Hd).
+  apply (response_complete (grid_sys g true true up) c0 (fun r => in_grid g r = true) ltac:(intros _ t; reflexivity)
+           reqs s p pr eq_refl eq_refl HG Hp Hd).
 Qed.
 
-Lemma grid_responses_never_wrong g reload up c0 reqs sched p pr r v :
-  valid_gconf g -> valid_reqs g reqs -> content_ok up c0 ->
-  let s := run (grid_sys g true reload up) (init c0 reqs) sched in
-  nth_error (procs s) p = Some pr -> In (r, Some v) (response pr) -> v = up r.
+(* with an expire timestamp: every requested tile is answered with the image of the upstream or with the
+   expired image that was in the cache at the start (a request that waited for the lock keeps the image it
+   loaded before) - never without image and never with another tile's image *)
+Lemma grid_responses_answered g up expire old c0 reqs sched p pr r :
+  valid_gconf g -> valid_reqs g reqs -> content_ok up c0 -> old_ok expire old ->
+  let s := run (grid_sys_x g true true up expire old) (init c0 reqs) sched in
+  nth_error (procs s) p = Some pr -> p_pc pr = Done -> In r (p_req pr) ->
+  exists v, In (r, Some v) (response pr) /\ (v = up r \/ old r = Some v).
 Proof.
-  intros Hg Hr Hc s Hp Hin. destruct (grid_reach g reload up c0 reqs sched Hg Hr Hc) as [_ [_ HG]]. fold s in HG.
-  apply (response_entries_correct _ _ _ _ _ _ _ _ _ HG Hp Hin).
+  intros Hg Hr Hc Ho s Hp Hd Hin. destruct (grid_reach g true up expire old c0 reqs sched Hg Hr Hc Ho) as [_ [_ HG]]. fold s in HG.
+  destruct (response_answered (grid_sys_x g true true up expire old) c0 (fun r => in_grid g r = true) _ _ _ _ eq_refl HG Hp Hd r Hin)
+    as [v [Hv Hok]].
+  exists v. split; [|exact Hok]. unfold response. apply in_map_iff. exists r. rewrite Hv. auto.
 Qed.
 
-Lemma grid_unanswered_is_cached g reload up c0 reqs sched p pr r :
-  valid_gconf g -> valid_reqs g reqs -> content_ok up c0 ->
-  let s := run (grid_sys g true reload up) (init c0 reqs) sched in
+Lemma grid_unanswered_is_cached g reload up expire old c0 reqs sched p pr r :
+  valid_gconf g -> valid_reqs g reqs -> content_ok up c0 -> old_ok expire old ->
+  let s := run (grid_sys_x g true reload up expire old) (init c0 reqs) sched in
   nth_error (procs s) p = Some pr -> p_pc pr = Done -> In r (p_req pr) -> lookup (cache s) r = Some (up r).
 Proof.
-  intros Hg Hr Hc s Hp Hd Hin. destruct (grid_reach g reload up c0 reqs sched Hg Hr Hc) as [_ [_ HG]]. fold s in HG.
+  intros Hg Hr Hc Ho s Hp Hd Hin. destruct (grid_reach g reload up expire old c0 reqs sched Hg Hr Hc Ho) as [_ [_ HG]]. fold s in HG.
   pose proof (done_tiles_cached _ _ _ _ _ _ _ _ HG Hp Hd Hin) as H. destruct (cached_lookup _ _ H) as [v Hv].
   rewrite Hv. f_equal. apply (g_ok _ _ _ _ _ HG _ _ Hv).
 Qed.
 
-Lemma grid_final_cache g reload up c0 reqs sched :
-  valid_gconf g -> valid_reqs g reqs -> content_ok up c0 ->
-  let s := run (grid_sys g true reload up) (init c0 reqs) sched in
+Lemma grid_final_cache g reload up expire old c0 reqs sched :
+  valid_gconf g -> valid_reqs g reqs -> content_ok up c0 -> old_ok expire old ->
+  let s := run (grid_sys_x g true reload up expire old) (init c0 reqs) sched in
   (forall t v, lookup (cache s) t = Some v -> v = up t /\ (cached c0 t = true \/ needed_tile g c0 reqs t)) /\
   (all_done s = true -> forall t, cached c0 t = true \/ needed_tile g c0 reqs t -> lookup (cache s) t = Some (up t)).
 Proof.
-  intros Hg Hr Hc s. pose proof (grid_reach g reload up c0 reqs sched Hg Hr Hc) as HR. fold s in HR.
+  intros Hg Hr Hc Ho s. pose proof (grid_reach g reload up expire old c0 reqs sched Hg Hr Hc Ho) as HR. fold s in HR.
   pose proof HR as [_ [_ HG]]. split.
   - intros t v Hl. apply (cache_sound _ _ _ _ _ _ _ HG Hl).
   - intros Hall t Ht.
     assert (H : cached (cache s) t = true).
-    { eapply (cache_complete (grid_sys g true reload up)); [|exact HR | exact Hall | exact Ht].
-      cbn [grid_sys o_members o_main]. intros r u _ Hu. apply grid_members_main; assumption. }
+    { eapply (cache_complete (grid_sys_x g true reload up expire old)); [|exact HR | exact Hall | exact Ht].
+      cbn [grid_sys_x o_members o_main]. intros r u _ Hu. apply grid_members_main; assumption. }
     destruct (cached_lookup _ _ H) as [v Hv]. rewrite Hv. f_equal. apply (g_ok _ _ _ _ _ HG _ _ Hv).
 Qed.
 
-Lemma grid_refused g reload up c0 reqs sched p k :
-  valid_gconf g -> valid_reqs g reqs -> content_ok up c0 ->
-  let s := run (grid_sys g true reload up) (init c0 reqs) sched in
-  snd (step (grid_sys g true reload up) s p) = OLock k false ->
+Lemma grid_refused g reload up expire old c0 reqs sched p k :
+  valid_gconf g -> valid_reqs g reqs -> content_ok up c0 -> old_ok expire old ->
+  let s := run (grid_sys_x g true reload up expire old) (init c0 reqs) sched in
+  snd (step (grid_sys_x g true reload up expire old) s p) = OLock k false ->
   exists q prq m, q <> p /\ nth_error (procs s) q = Some prq /\ holds (p_pc prq) = Some m /\ g_key g m = k.
 Proof.
-  intros Hg Hr Hc s Ho. destruct (grid_reach g reload up c0 reqs sched Hg Hr Hc) as [HL _]. fold s in HL.
-  apply (refused_means_held _ _ _ _ HL Ho).
+  intros Hg Hr Hc Ho s Hobs. destruct (grid_reach g reload up expire old c0 reqs sched Hg Hr Hc Ho) as [HL _]. fold s in HL.
+  apply (refused_means_held _ _ _ _ HL Hobs).
 Qed.
 
 Lemma grid_key_iff g t u :
@@ -1168,16 +1243,17 @@ Proof.
   intros Hq Hm. rewrite (step_lstep _ _ _ _ Hq). unfold lstep.
   destruct (p_pc pr) as [todo|todo|t rtodo|m' rest|m' todo rest|m' rest|m' todo rest|m' rest|m' a rest|m' todo rest|];
     try discriminate Hm; try destruct todo as [|t' todo]; cbn [snd]; try discriminate.
-  destruct (cached (cache s) t'); discriminate.
+  - destruct (cached (cache s) t'); discriminate.
+  - destruct (has_src (p_src pr) m'); discriminate.
 Qed.
 
-Lemma grid_no_deadlock g reload up c0 reqs sched p k :
-  valid_gconf g -> valid_reqs g reqs -> content_ok up c0 ->
-  let s := run (grid_sys g true reload up) (init c0 reqs) sched in
-  snd (step (grid_sys g true reload up) s p) = OLock k false ->
-  exists q, q <> p /\ forall k', snd (step (grid_sys g true reload up) s q) <> OLock k' false.
+Lemma grid_no_deadlock g reload up expire old c0 reqs sched p k :
+  valid_gconf g -> valid_reqs g reqs -> content_ok up c0 -> old_ok expire old ->
+  let s := run (grid_sys_x g true reload up expire old) (init c0 reqs) sched in
+  snd (step (grid_sys_x g true reload up expire old) s p) = OLock k false ->
+  exists q, q <> p /\ forall k', snd (step (grid_sys_x g true reload up expire old) s q) <> OLock k' false.
 Proof.
-  intros Hg Hr Hc s Ho. destruct (grid_refused g reload up c0 reqs sched p k Hg Hr Hc Ho) as [q [prq [m [Hn [Hq [Hm _]]]]]].
+  intros Hg Hr Hc Ho s Hobs. destruct (grid_refused g reload up expire old c0 reqs sched p k Hg Hr Hc Ho Hobs) as [q [prq [m [Hn [Hq [Hm _]]]]]].
   exists q. split; [exact Hn|]. intros k'. eapply holder_not_waiting; eassumption.
 Qed.
 
